@@ -29,7 +29,10 @@ Targeted sub-families (enumerated, deterministic; see targeted_clamps / targeted
   (c) c1 - c2*Heaviside(v - k) with negative / mixed coefficients written directly (threshold inside, at the edge of, outside
       the box) and arising as derivatives of Max/Min with a decreasing branch.
 Every case is evaluated twice in the same process: first with cold caches in generation order, then with warm caches in
-reversed order (the targeted cases first, so that a time-budget truncation does not drop them).
+reversed order (the targeted cases first, so that a time-budget truncation does not drop them).  Order of the family: old
+targeted, (a), (b), (c), every depth<=1 formula, then the seeded part, which is what a time-budget truncation cuts first.
+Payload extras: "only_targeted": true runs the targeted cases only (debugging); crosscheck with n >= 2000 and no "tier" runs
+the thorough tier.
 """
 import itertools, math, random, signal, threading, time
 from fractions import Fraction
